@@ -185,6 +185,44 @@ func c11Check(c *kit.Case, in c11Input) {
 			}
 		}
 	}
+	// --- one Message value that receives several frames (a connection loop): what an earlier
+	// frame left in it must not show through a later frame whose parts are empty or absent
+	if cdc.Name == "fuzz.Message" {
+		if mv, ok := v0.Interface().(Message); ok {
+			poor := Message{Type: mv.Type}
+			switch mv.Type {
+			case MessageType_PeerInfo:
+				poor.PeerInfo = &PeerInfo{}
+			case MessageType_ImportBlock:
+				poor.ImportBlock = &ImportBlock{}
+			case MessageType_SetState:
+				poor.SetState = &SetState{}
+			case MessageType_GetState:
+				poor.GetState = &GetState{}
+			case MessageType_StateRoot:
+				poor.StateRoot = &StateRoot{}
+			case MessageType_ErrorMessage:
+				poor.Error = &ErrorMessage{}
+			case MessageType_State:
+				poor.State = &State{}
+			}
+			var pe []byte
+			var perr error
+			if p, _ := cdcCall(func() { pe, perr = poor.MarshalBinary() }); !p && perr == nil {
+				var m Message
+				if _, e1 := m.ReadFrom(bytes.NewReader(enc0)); e1 == nil {
+					if _, e2 := m.ReadFrom(bytes.NewReader(pe)); e2 != nil {
+						c11Fail(c, cdc, v0, "decode-error", "second frame read into the same Message failed: "+e2.Error())
+					}
+					back, e3 := m.MarshalBinary()
+					if e3 != nil || !bytes.Equal(back, pe) {
+						c11Fail(c, cdc, v0, "mismatch", fmt.Sprintf("a Message that had received this frame, then an all-empty frame of the same type (%s), re-encodes to %s (err %v): parts of the earlier frame show through", cdcHex(pe), cdcHex(back), e3))
+					}
+					c.Class("message_reused_for_a_second_frame")
+				}
+			}
+		}
+	}
 	// --- round trip (Decode runs in the worker process, see common file)
 	req := &cdcReq{Codec: cdc.Name, Mode: in.Mode, Seg: cdcSegKeys(seg), Data: enc0, Node: in.Node}
 	if cdc.SelfDelimiting {
